@@ -38,13 +38,13 @@ theorem progress_step (a : Answered) (s : RStep) (hw : wfStep s = true) : doneSt
     | false => simp
     | true =>
       simp only [Bool.not_true, Bool.false_eq_true, ↓reduceIte, Bool.and_eq_true]
-      rcases progress_branches a (anyCondHolds bs) (termIds a bs) (condIds bs) bs hw with hb | hb | ⟨n, hn1, hn2⟩
+      rcases progress_branches a (stepTaken bs as) (termIds a bs) (condIds bs) bs hw with hb | hb | ⟨n, hn1, hn2⟩
       · rcases progress_acts a as with ha | ha
         · exact Or.inl ⟨hb, ha⟩
         · right; intro h; exact ha (List.append_eq_nil_iff.mp h).2
       · right; intro h; exact hb (List.append_eq_nil_iff.mp h).1
       · right; intro h
-        exact stuck_needs_opens a (anyCondHolds bs) (termIds a bs) (condIds bs) bs hw n hn1 hn2 (List.append_eq_nil_iff.mp h).1
+        exact stuck_needs_opens a (stepTaken bs as) (termIds a bs) (condIds bs) bs hw n hn1 hn2 (List.append_eq_nil_iff.mp h).1
 theorem progress_steps (a : Answered) (ss : List RStep) (hw : wfSteps ss = true) : doneSteps a ss = true ∨ opensSteps a ss ≠ [] := by
   cases ss with
   | nil => simp [doneSteps]
